@@ -11,6 +11,20 @@ TREE_ASSUME = ['the harness-side sorted-array model and orderings (h_tree.c) are
 REFS_HASH = ('refs/ref_hash.c',)
 
 
+SCALED_ARGS = ('--cases', '--random', '--queries', '--mutations', '--ini', '--apache')
+
+
+def rel_twin(job, frac=0.5):
+    """the same harness against the library compiled as a release build (-O3 -DNDEBUG, builtins on; vf.py config 'rel'), at a fraction of the volume:
+    undefined or implementation-defined behaviour that is harmless at -O0/-O1 but is exploited by the optimiser shows as a wrong result of the same oracle"""
+    a = list(job.args)
+    for i in range(len(a) - 1):
+        if a[i] in SCALED_ARGS and a[i + 1].isdigit():
+            a[i + 1] = str(max(1, int(int(a[i + 1]) * frac)))
+    return Job(job.harness, 'rel', wraps=job.wraps, shards=job.shards, args=a, env=job.env, extra_srcs=job.extra_srcs, timeout=job.timeout,
+               extra_cflags=job.extra_cflags, libs=job.libs, lib_defs=job.lib_defs)
+
+
 def scale_job(tier):
     """the containers at scale and after long histories (h_scale.c): hundreds of thousands of elements, values up to 1 MiB, drain and reuse"""
     return Job('h_scale', 'plain', extra_srcs=REFS_HASH, args=(['--n', '1200007', '--huge', '1'] if tier == 'thorough' else ['--n', '300007']))
@@ -18,7 +32,8 @@ def scale_job(tier):
 
 def tree_jobs(prop, q_args, t_args):
     def jobs(tier, seed):
-        return [Job('h_tree', 'plain', args=(t_args if tier == 'thorough' else q_args)), scale_job(tier)]
+        j = Job('h_tree', 'plain', args=(t_args if tier == 'thorough' else q_args))
+        return [j, scale_job(tier), rel_twin(j)]
     return jobs
 
 
@@ -64,7 +79,8 @@ CHECKS['C04'] = dict(
 CHECKS['C05'] = dict(
     title='hash table exact map for every history and range', level='exploration',
     jobs=lambda tier, seed: [Job('h_hashtbl', 'plain', extra_srcs=REFS_HASH,
-                                 args=['--cases', '48000' if tier == 'thorough' else '480']), scale_job(tier)],
+                                 args=['--cases', '48000' if tier == 'thorough' else '480']), scale_job(tier),
+                             Job('h_hashtbl', 'rel', extra_srcs=REFS_HASH, args=['--cases', '24000' if tier == 'thorough' else '240'])],
     rule='evaluation = one API call (put/putstr/putstrf/putint/get/getstr/getint/remove/clear/size/getnext walk) compared with an association-array model; '
          'after every operation of small configurations (every 16th otherwise) every universe key is re-read and the chain walker re-checks slot placement '
          '(reference MurmurHash3), stored hashes, duplicates and the count. Ranges 1,2,3,7,64,default; removals chosen by chain position head/middle/tail/only; one key style consists of pairs of distinct keys with identical full 32-bit hashes (found by birthday search with the reference hash). '
@@ -86,6 +102,7 @@ def hasharr_jobs(prop):
         t = ['--maxcap', '12', '--cases', '3500', '--statecap', '3000000']
         a = t if tier == 'thorough' else q
         js = [Job('h_hasharr', 'plain', extra_srcs=REFS_HASH, args=a + (['--longchain', '1'] if (prop == 'C06' and tier == 'thorough') else [])), scale_job(tier)]
+        js.append(Job('h_hasharr', 'rel', extra_srcs=REFS_HASH, args=(['--maxcap', '8', '--cases', '1750', '--statecap', '600000'] if tier == 'thorough' else ['--maxcap', '5', '--cases', '140', '--statecap', '100000'])))
         if prop == 'C07':
             qa = ['--maxcap', '5', '--cases', '140', '--statecap', '100000']
             ta = ['--maxcap', '8', '--cases', '1500', '--statecap', '600000']     # capacity 9 under ASan took ~1 h on two shards (the BFS of one capacity is one case)
@@ -120,7 +137,8 @@ CHECKS['C07'] = dict(
 
 CHECKS['C08'] = dict(
     title='list table exact ordered multimap under every option combination', level='exploration',
-    jobs=lambda tier, seed: [Job('h_listtbl', 'plain', extra_srcs=REFS_HASH, args=['--cases', '128000' if tier == 'thorough' else '960']), scale_job(tier)],
+    jobs=lambda tier, seed: [Job('h_listtbl', 'plain', extra_srcs=REFS_HASH, args=['--cases', '128000' if tier == 'thorough' else '960']), scale_job(tier),
+                             Job('h_listtbl', 'rel', extra_srcs=REFS_HASH, args=['--cases', '64000' if tier == 'thorough' else '480'])],
     rule='evaluation = one operation (put/putstr/putstrf/putint, get/getstr/getint, getmulti, remove, full and name-filtered walks with both copy flags, '
          'removeobj of the first/last/only/middle entry during a walk, sort, save+load with and without encoding, clear) compared with an ordered-multimap model '
          'parameterised by the 4 options; after every operation the raw chain (public links) is compared entry by entry with the model order and the link invariants are checked. '
@@ -133,7 +151,8 @@ CHECKS['C08'] = dict(
 
 CHECKS['C09'] = dict(
     title='list, queue, stack, grow buffer exact sequences', level='exploration',
-    jobs=lambda tier, seed: [Job('h_list', 'plain', args=['--cases', '64000' if tier == 'thorough' else '480']), scale_job(tier)],
+    jobs=lambda tier, seed: [Job('h_list', 'plain', args=['--cases', '64000' if tier == 'thorough' else '480']), scale_job(tier),
+                             Job('h_list', 'rel', args=['--cases', '32000' if tier == 'thorough' else '240'])],
     rule='evaluation = one operation compared with an array-of-byte-strings model (result, out-size, errno class ERANGE/ENOBUFS/EINVAL/ENOENT), followed by a full comparison of the '
          'chain (public links, both directions), size() and datasize(). Exhaustive sweep: every (n<=12, index in [-n-2,n+2], op in addat/getat/popat/removeat, size limit none/n-1/n/n+1) cell on a fresh list; '
          'random histories of list (all operations incl. setsize, reverse, toarray, tostring, getnext), queue (FIFO), stack (LIFO) and grow buffer (concatenation). '
@@ -146,7 +165,8 @@ CHECKS['C09'] = dict(
 
 CHECKS['C10'] = dict(
     title='vector exact array under every growth policy', level='exploration',
-    jobs=lambda tier, seed: [Job('h_vector', 'plain', args=['--cases', '64000' if tier == 'thorough' else '320']), scale_job(tier)],
+    jobs=lambda tier, seed: [Job('h_vector', 'plain', args=['--cases', '64000' if tier == 'thorough' else '320']), scale_job(tier),
+                             Job('h_vector', 'rel', args=['--cases', '32000' if tier == 'thorough' else '160'])],
     rule='evaluation = one operation compared with an array-of-fixed-size-elements model (result, returned bytes, errno ERANGE/ENOENT/EINVAL), followed by a comparison of the whole '
          'element buffer, size(), element size, num<=max and data!=NULL iff max>0. Exhaustive sweep: every (n<=10, index in [-n-2,n+2], element size 1/3/8/17/64, policy exact/linear/double, '
          'initial capacity 0/1/n/n+3, op addat/getat/setat/popat/removeat) cell; random histories with resize to 0 / at or below n / above n / to a capacity that can not be allocated / to a capacity whose byte count overflows size_t (both must be refused without effect) interleaved with middle insertion and removal. '
@@ -194,7 +214,8 @@ C12_ACCESSORS = ['qtreetbl.getobj', 'qtreetbl.get', 'qtreetbl.getstr', 'qtreetbl
 
 CHECKS['C12'] = dict(
     title='containers own private copies; returned copies independent', level='exploration',
-    jobs=lambda tier, seed: [Job('h_own', 'asan', args=['--cases', str(9 * (2000 if tier == 'thorough' else 160))])],
+    jobs=lambda tier, seed: [Job('h_own', 'asan', args=['--cases', str(9 * (2000 if tier == 'thorough' else 160))]),
+                             Job('h_own', 'rel', args=['--cases', str(9 * (1000 if tier == 'thorough' else 80))])],
     rule='evaluation = one operation of a per-container random history in which every key/value passed to a put-like call lives in a fresh exactly-sized heap block that is '
          'overwritten with 0xA5 and freed right after the call, and every copying accessor (%d accessors, each required to be exercised) is called with the copy flag: the returned bytes and length are '
          'compared with the model, the pointer must be the start of its own library allocation and differ from the internal pointer, and the copy is kept in a pool that is re-verified after every later '
@@ -250,7 +271,7 @@ def c14_post(res, tier, seed, bdir, rdir):
 
 CHECKS['C14'] = dict(
     title='every operation returns with the container lock released', level='fault_enumeration',
-    jobs=lambda tier, seed: [Job('h_lock', 'plain', wraps=('alloc', 'lock'))],
+    jobs=lambda tier, seed: [Job('h_lock', 'plain', wraps=('alloc', 'lock')), Job('h_lock', 'rel', wraps=('alloc', 'lock'))],
     evidence=c14_evidence, post=c14_post,
     rule='enumeration: every public function of every lockable container (method tables extracted from the public headers; uncovered ones are listed) x every argument/outcome variant '
          '(success, NULL/zero-size argument, present/missing key, every index in [-n-2,n+2] for n<=7 and 11 representative indexes for n=40, empty, full, NULL stream, unwritable path) '
@@ -269,6 +290,7 @@ def c15_jobs(tier, seed):
     return [
         Job('h_tree', 'asan', args=['--universe', '8' if t else '6']),
         Job('h_oom', 'asan'),
+        Job('h_oom', 'rel'),
     ]
 
 
@@ -297,6 +319,7 @@ def c13_jobs(tier, seed):
         Job('h_conc', 'plain', wraps=W, tag='conc-controlled', args=['--mode', 'controlled', '--cases', '448' if t else '224', '--budget', '20000' if t else '3000']),
         Job('h_conc', 'plain', wraps=W, tag='conc-stress', args=['--mode', 'stress', '--cases', '4480' if t else '560']),
         Job('h_conc', 'tsan', wraps=W, tag='conc-tsan', shards=8, args=['--mode', 'stress', '--cases', '1120' if t else '168']),
+        Job('h_conc', 'rel', wraps=W, tag='conc-stress-rel', args=['--mode', 'stress', '--cases', '2240' if t else '280']),
     ]
 
 
@@ -329,7 +352,8 @@ CHECKS['C13'] = dict(
 CHECKS['C16'] = dict(
     title='encoders/decoders exact inverses, standard formats', level='exploration',
     jobs=lambda tier, seed: [Job('h_codec', 'plain', args=(['--exhaustive-len', '3', '--random', '60000', '--queries', '200000', '--huge', '1'] if tier == 'thorough'
-                                                         else ['--exhaustive-len', '2', '--random', '20000', '--queries', '20000']))],
+                                                         else ['--exhaustive-len', '2', '--random', '20000', '--queries', '20000'])),
+                             Job('h_codec', 'rel', args=['--exhaustive-len', '2', '--random', '30000' if tier == 'thorough' else '10000', '--queries', '100000' if tier == 'thorough' else '10000'])],
     rule='evaluation = one byte string taken through URL, Base64 and hex: encode, format predicate (URL: only printable ASCII outside % + & = ? # " < > literally, every literal equal to the input byte, every other byte as %hh of that byte; '
          'Base64 equal to an independent RFC 4648 encoder; hex two lowercase digits per byte), decode(encode(x)) == x with exact length, decoder leniency (upper-case hex, + for space); or one query list of 0-12 pairs over bytes 1-255 '
          '(empty names/values included, separators & or ; and =) assembled from encoded parts and parsed back, compared in chain order. Exhaustive over all byte strings of length 0..2 (quick) / 0..3 (thorough); random lengths to 4096. '
@@ -341,7 +365,8 @@ CHECKS['C16'] = dict(
 
 CHECKS['C18'] = dict(
     title='hash functions equal their published algorithms', level='exploration',
-    jobs=lambda tier, seed: [Job('h_hash', 'asan', extra_srcs=REFS_HASH, args=(['--seeds', '20', '--big', '512', '--huge', '1'] if tier == 'thorough' else ['--seeds', '1', '--big', '64', '--huge', '2']))],
+    jobs=lambda tier, seed: [Job('h_hash', 'asan', extra_srcs=REFS_HASH, args=(['--seeds', '20', '--big', '512', '--huge', '1'] if tier == 'thorough' else ['--seeds', '1', '--big', '64', '--huge', '2'])),
+                             Job('h_hash', 'rel', extra_srcs=REFS_HASH, args=['--seeds', '4' if tier == 'thorough' else '1', '--big', '64', '--huge', '2'])],
     rule='evaluation = one (length, alignment, content class) cell: the bytes are placed so that they end exactly at the end of their heap block with the slack in front ASan-poisoned, hashed with qhashmd5, qhashmurmur3_32, '
          'qhashmurmur3_128, qhashfnv1_32, qhashfnv1_64 (result buffers at arbitrary alignment) and compared with independent byte-wise references; then hashed again at another address/alignment with different bytes behind the buffer (results must agree). '
          'Cell grid: every length 1..600 x 8 alignments x {random, all-zero, all-0xff, embedded NULs, high-bit}, complete in every run; plus random sizes up to 1 MiB and qhashmd5_file over files of 0/1/32767/32768/32769/102400 bytes with whole/to-end/inner/out-of-range (offset, length) requests. '
@@ -354,7 +379,8 @@ CHECKS['C18'] = dict(
 
 CHECKS['C19'] = dict(
     title='string utilities exact, bounded writes', level='exploration',
-    jobs=lambda tier, seed: [Job('h_string', 'asan', args=(['--maxlen', '7', '--random', '40000'] if tier == 'thorough' else ['--maxlen', '5', '--random', '4000']))],
+    jobs=lambda tier, seed: [Job('h_string', 'asan', args=(['--maxlen', '7', '--random', '40000'] if tier == 'thorough' else ['--maxlen', '5', '--random', '4000'])),
+                             Job('h_string', 'rel', args=(['--maxlen', '6', '--random', '20000'] if tier == 'thorough' else ['--maxlen', '4', '--random', '4000']))],
     rule='evaluation = one call compared with an independently written reference definition: qstrtrim/_head/_tail over exactly {space,tab,CR,LF} (the alphabet contains VT, FF, 0x80 as non-blanks); qstrreplace tn/tr/sn/sr (token mode: each listed character -> word; string mode: leftmost non-overlapping occurrences; '
          'in-place buffers sized max(|src|,|result|)+1); qstrcpy/qstrncpy = first min(n,size-1) bytes + NUL for every size 1..n+2 and nbytes 0..n between guard bytes, overlapping source; qstrtok by field list and exact reconstruction (neutral on a final empty field), '
          'qstrtokenizer = that list; qstrgets with big (exact lines) and small buffers (pieces concatenate to the CR/LF-free text); qstrunchar, qstrrev, qstrupper/lower (ASCII only), qstrdup_between, qmemdup; qstrdupf/qstrcatf = the vsnprintf result for every length 0..80 and 2^k-3..2^k+3 (k = 8..14, thorough 17: the growth steps of the internal buffer), appended into exact room + guard bytes. All strings up to length 5 (quick) / 7 (thorough) over the significant alphabets, '
@@ -381,7 +407,8 @@ def c20_pre(tier, seed, bdir):
 def c20_jobs(tier, seed):
     ni, na = c20_counts(tier)
     # leak detection off: C20 is about what the parsers deliver; a leak inside a parser is outside every listed property (C11 speaks of containers)
-    return [Job('h_conf', 'asan', wraps=('alloc', 'popen'), args=['--cases-dir', '{bdir}/conf', '--ini', str(ni), '--apache', str(na)], env={'LSAN_OPTIONS': 'detect_leaks=0', 'ASAN_OPTIONS_EXTRA': 'detect_leaks=0'})]
+    return [Job('h_conf', 'asan', wraps=('alloc', 'popen'), args=['--cases-dir', '{bdir}/conf', '--ini', str(ni), '--apache', str(na)], env={'LSAN_OPTIONS': 'detect_leaks=0', 'ASAN_OPTIONS_EXTRA': 'detect_leaks=0'}),
+            Job('h_conf', 'rel', wraps=('alloc', 'popen'), args=['--cases-dir', '{bdir}/conf', '--ini', str(ni), '--apache', str(na)])]
 
 
 CHECKS['C20'] = dict(
